@@ -89,6 +89,7 @@ func (c16) Gen(seed uint64, run int, tier string) *Plan {
 	k["exc2"] = c16b2i(r.Intn(100) < 50)        // services register External-C2 endpoints
 	k["multi"] = c16b2i(r.Intn(100) < 50)       // a connection registers more than one agent / listener type
 	k["pendclose"] = c16b2i(r.Intn(100) < 35)   // a connection may vanish while it owes an answer
+	k["instant"] = c16b2i(r.Intn(100) < 30)     // services answer agent requests with no latency at all
 	if k["svc"] == 1 {
 		p.Cfg.Service = &world.ServiceCfg{Endpoint: c16SvcEndpoint, Password: c16SvcPassword}
 	}
@@ -648,6 +649,9 @@ func (st *c16State) inject(a Action, pre []c16Entry) {
 			return
 		}
 		c.sc.SendRegister(w.Cfg.Service.Password)
+		if st.p.Knob("instant", 0) == 1 {
+			c.sc.AnswerInstantly(func(payload []byte) []byte { return []byte("answer-to-" + string(payload)) })
+		}
 		st.slots[slot] = c
 		st.conns = append(st.conns, c)
 		res.Probe("svc-connections")
@@ -763,6 +767,10 @@ func (st *c16State) locate() {
 			for _, f := range c.sc.Forwarded {
 				if bytes.Equal(f.Payload, q.marker) {
 					q.at = c
+					if f.Instant && !q.answered {
+						q.answered = true
+						st.res.Probe("svc-instant-answers")
+					}
 				}
 			}
 		}
